@@ -174,6 +174,14 @@ func postArgs(d *D, s *S, n int) error { rt.Call("postArgs", d, s, n); return rt
 var rtSites = []string{"cvE", "cvE2", "S.NE", "preHE", "postHE", "postArgs"}
 var rtHooks = []string{"preH", "preHE", "preV", "postH", "postHE", "postV", "postArgs"}
 
+func mapValues(m map[string]string) []string {
+	var out []string
+	for _, v := range m {
+		out = append(out, v)
+	}
+	return out
+}
+
 func goStr(s string) string { b, _ := json.Marshal(s); return string(b) }
 
 func init() {
@@ -187,6 +195,8 @@ func init() {
 		replayDir := fs.String("replays", "replays", "replay directory")
 		out := fs.String("out", "", "summary")
 		workers := fs.Int("j", 16, "workers")
+		only := fs.String("only", "", "replay file: run just that case")
+		corpus := fs.String("corpus", "", "directory of corpus cases of the run-time family, run first")
 		_ = fs.Parse(args)
 		t0 := time.Now()
 		root, err := newScratchModule()
@@ -201,10 +211,33 @@ func init() {
 		_ = os.MkdirAll(filepath.Join(root, "rt"), 0755)
 		_ = os.WriteFile(filepath.Join(root, "rt", "rt.go"), []byte(rtSource), 0644)
 		var cases []GCase
-		for i := 0; i < *n; i++ {
-			t := &tgen{r: newRand(*seed, i), name: fmt.Sprintf("r%05d", i), files: map[string]string{}, feats: map[string]bool{}}
-			famRuntime(t)
-			cases = append(cases, t.finish("runtime"))
+		if *only != "" {
+			// only cases of the run-time family carry the instrumentation the exerciser needs
+			for _, c := range loadCorpusFile(*only) {
+				if strings.Contains(strings.Join(mapValues(c.Files), "\n"), "exp/rt") {
+					c.Name = strings.Split(c.Setup, "/")[0] // the exerciser is written into the case's package directory
+					cases = append(cases, c)
+				}
+			}
+		} else {
+			if *corpus != "" {
+				for _, c := range loadCorpus(*corpus) {
+					if strings.Contains(strings.Join(mapValues(c.Files), "\n"), "exp/rt") {
+						c.Name = "k" + strings.Split(c.Setup, "/")[0] // keep clear of the generated case names
+						nf := map[string]string{}
+						for rel, content := range c.Files {
+							nf["k"+rel] = strings.ReplaceAll(content, "package "+strings.Split(c.Setup, "/")[0], "package "+c.Name)
+						}
+						c.Files, c.Setup = nf, "k"+c.Setup
+						cases = append(cases, c)
+					}
+				}
+			}
+			for i := 0; i < *n; i++ {
+				t := &tgen{r: newRand(*seed, i), name: fmt.Sprintf("r%05d", i), files: map[string]string{}, feats: map[string]bool{}}
+				famRuntime(t)
+				cases = append(cases, t.finish("runtime"))
+			}
 		}
 		for _, c := range cases {
 			if err := writeCase(root, c); err != nil {
